@@ -30,6 +30,7 @@ const (
 	avTuple
 	avConst
 	avFunc
+	avSlice // slice of a local array (variadic argument pack); Tuple holds the element values when expanded
 )
 
 // AV is an abstract value.
@@ -88,7 +89,7 @@ func (o *Outcome) NilnessOf(v AV) Nilness {
 	switch v.Kind {
 	case avNil:
 		return IsNil
-	case avNonNil, avAddr, avFunc:
+	case avNonNil, avAddr, avFunc, avSlice:
 		return IsNonNil
 	case avSym:
 		return o.Facts[v.Sym]
@@ -124,15 +125,23 @@ type PathConfig struct {
 	MaxPaths   int // default 200000
 }
 
+// cellKey addresses a local memory cell: a scalar local (idx -1) or one element of a local array.
+type cellKey struct {
+	a   *ssa.Alloc
+	idx int
+}
+
 type pathState struct {
 	trace     []Token
 	facts     map[int]Nilness
-	cells     map[*ssa.Alloc]AV
+	cells     map[cellKey]AV
 	globals   map[*ssa.Global]AV
 	recovered int
 	decisions []string
 	panicAt   ssa.Instruction // origin of the panic currently unwinding (for the "recovered" pseudo-token)
 	panicIn   *ssa.Function
+	intEq     map[string]int64          // canonical integer expression (len(os.Args)) -> value it is known to equal
+	intNeq    map[string]map[int64]bool // ... -> values it is known to differ from
 }
 
 func (s *pathState) clone() *pathState {
@@ -143,13 +152,25 @@ func (s *pathState) clone() *pathState {
 	for k, v := range s.facts {
 		n.facts[k] = v
 	}
-	n.cells = make(map[*ssa.Alloc]AV, len(s.cells))
+	n.cells = make(map[cellKey]AV, len(s.cells))
 	for k, v := range s.cells {
 		n.cells[k] = v
 	}
 	n.globals = make(map[*ssa.Global]AV, len(s.globals))
 	for k, v := range s.globals {
 		n.globals[k] = v
+	}
+	n.intEq = make(map[string]int64, len(s.intEq))
+	for k, v := range s.intEq {
+		n.intEq[k] = v
+	}
+	n.intNeq = make(map[string]map[int64]bool, len(s.intNeq))
+	for k, v := range s.intNeq {
+		m := make(map[int64]bool, len(v))
+		for a, b := range v {
+			m[a] = b
+		}
+		n.intNeq[k] = m
 	}
 	return n
 }
@@ -230,7 +251,7 @@ func (e *pathEngine) Run(fn *ssa.Function, args []AV, presetFacts map[int]Nilnes
 			args[i] = a
 		}
 	}
-	st := &pathState{facts: map[int]Nilness{}, cells: map[*ssa.Alloc]AV{}, globals: map[*ssa.Global]AV{}}
+	st := &pathState{facts: map[int]Nilness{}, cells: map[cellKey]AV{}, globals: map[*ssa.Global]AV{}, intEq: map[string]int64{}, intNeq: map[string]map[int64]bool{}}
 	for k, v := range presetFacts {
 		st.facts[k] = v
 	}
@@ -386,6 +407,52 @@ func nilTest(cond ssa.Value) (ssa.Value, bool, bool) {
 	return x, trueMeansNil, true
 }
 
+// intTest recognises `E == k` / `E != k` where E is a canonical integer expression and k a constant.
+// It returns the key of E, k, and whether the condition being true means equality.
+func intTest(cond ssa.Value) (string, int64, bool, bool) {
+	b, ok := cond.(*ssa.BinOp)
+	if !ok || (b.Op != token.EQL && b.Op != token.NEQ) {
+		return "", 0, false, false
+	}
+	var ex ssa.Value
+	var c *ssa.Const
+	if cc, ok := b.Y.(*ssa.Const); ok {
+		ex, c = b.X, cc
+	} else if cc, ok := b.X.(*ssa.Const); ok {
+		ex, c = b.Y, cc
+	}
+	if c == nil || c.Value == nil || c.Value.Kind() != constant.Int {
+		return "", 0, false, false
+	}
+	key := canonicalInt(ex)
+	if key == "" {
+		return "", 0, false, false
+	}
+	return key, c.Int64(), b.Op == token.EQL, true
+}
+
+// canonicalInt names integer expressions whose value cannot change between two evaluations on one path as far as
+// the analysed code is concerned: len() of a package-level variable of a dependency (os.Args).
+func canonicalInt(v ssa.Value) string {
+	call, ok := v.(*ssa.Call)
+	if !ok {
+		return ""
+	}
+	bi, ok := call.Call.Value.(*ssa.Builtin)
+	if !ok || bi.Name() != "len" || len(call.Call.Args) != 1 {
+		return ""
+	}
+	ld, ok := call.Call.Args[0].(*ssa.UnOp)
+	if !ok || ld.Op != token.MUL {
+		return ""
+	}
+	g, ok := ld.X.(*ssa.Global)
+	if !ok || g.Pkg == nil || strings.HasPrefix(g.Pkg.Pkg.Path(), ModulePath) {
+		return ""
+	}
+	return "len(" + g.Pkg.Pkg.Name() + "." + g.Name() + ")"
+}
+
 func (e *pathEngine) execFrom(fr *frame, b *ssa.BasicBlock, start int, st *pathState) []funcOutcome {
 	for i := start; i < len(b.Instrs); i++ {
 		if e.over {
@@ -395,12 +462,12 @@ func (e *pathEngine) execFrom(fr *frame, b *ssa.BasicBlock, start int, st *pathS
 		case *ssa.Phi, *ssa.DebugRef:
 			continue
 		case *ssa.Alloc:
-			fr.env[ins] = AV{Kind: avAddr, Alloc: ins}
-			st.cells[ins] = zeroAV(ins.Type().(*types.Pointer).Elem())
+			fr.env[ins] = AV{Kind: avAddr, Alloc: ins, Index: -1}
+			st.cells[cellKey{ins, -1}] = zeroAV(ins.Type().(*types.Pointer).Elem())
 		case *ssa.Store:
 			addr := e.eval(fr, st, ins.Addr)
 			if addr.Kind == avAddr {
-				st.cells[addr.Alloc] = e.eval(fr, st, ins.Val)
+				st.cells[cellKey{addr.Alloc, addr.Index}] = e.eval(fr, st, ins.Val)
 			}
 		case *ssa.UnOp:
 			switch ins.Op {
@@ -408,7 +475,7 @@ func (e *pathEngine) execFrom(fr *frame, b *ssa.BasicBlock, start int, st *pathS
 				x := e.eval(fr, st, ins.X)
 				switch {
 				case x.Kind == avAddr:
-					if v, ok := st.cells[x.Alloc]; ok {
+					if v, ok := st.cells[cellKey{x.Alloc, x.Index}]; ok {
 						fr.env[ins] = v
 					} else {
 						fr.env[ins] = e.fresh(ins, 0)
@@ -460,9 +527,23 @@ func (e *pathEngine) execFrom(fr *frame, b *ssa.BasicBlock, start int, st *pathS
 			} else {
 				fr.env[ins] = e.fresh(ins, ins.Index)
 			}
-		case *ssa.FieldAddr, *ssa.IndexAddr:
-			fr.env[ins.(ssa.Value)] = AV{Kind: avNonNil, Origin: ins}
-		case *ssa.Field, *ssa.Index, *ssa.Lookup, *ssa.Slice, *ssa.BinOp, *ssa.TypeAssert, *ssa.Range, *ssa.Next, *ssa.SliceToArrayPointer:
+		case *ssa.IndexAddr:
+			base := e.eval(fr, st, ins.X)
+			if cidx, ok := ins.Index.(*ssa.Const); ok && base.Kind == avAddr && base.Index == -1 && cidx.Value != nil {
+				fr.env[ins] = AV{Kind: avAddr, Alloc: base.Alloc, Index: int(cidx.Int64())}
+			} else {
+				fr.env[ins] = AV{Kind: avNonNil, Origin: ins}
+			}
+		case *ssa.FieldAddr:
+			fr.env[ins] = AV{Kind: avNonNil, Origin: ins}
+		case *ssa.Slice:
+			base := e.eval(fr, st, ins.X)
+			if base.Kind == avAddr && base.Index == -1 && ins.Low == nil && ins.High == nil {
+				fr.env[ins] = AV{Kind: avSlice, Alloc: base.Alloc, Origin: ins}
+			} else {
+				fr.env[ins] = e.fresh(ins, 0)
+			}
+		case *ssa.Field, *ssa.Index, *ssa.Lookup, *ssa.BinOp, *ssa.TypeAssert, *ssa.Range, *ssa.Next, *ssa.SliceToArrayPointer:
 			v := ins.(ssa.Value)
 			if tup, ok := v.Type().(*types.Tuple); ok {
 				t := AV{Kind: avTuple}
@@ -526,7 +607,7 @@ func (e *pathEngine) execFrom(fr *frame, b *ssa.BasicBlock, start int, st *pathS
 				switch xv.Kind {
 				case avNil:
 					n = IsNil
-				case avNonNil, avAddr, avFunc:
+				case avNonNil, avAddr, avFunc, avSlice:
 					n = IsNonNil
 				case avSym:
 					n = st.facts[xv.Sym]
@@ -571,6 +652,41 @@ func (e *pathEngine) execFrom(fr *frame, b *ssa.BasicBlock, start int, st *pathS
 				st2, fr2 := st.clone(), fr.clone()
 				takeTrue(st)
 				takeFalse(st2)
+				outs := e.execBlock(fr, tb, b, st)
+				return append(outs, e.execBlock(fr2, fb, b, st2)...)
+			}
+			// comparison of a canonical integer expression (len of a package-level slice) with a constant: the two
+			// branches record == k / != k so that a later comparison of the same expression is decided
+			if key, k, eq, ok := intTest(ins.Cond); ok {
+				if v, known := st.intEq[key]; known {
+					if (v == k) == eq {
+						return e.execBlock(fr, tb, b, st)
+					}
+					return e.execBlock(fr, fb, b, st)
+				}
+				if st.intNeq[key][k] {
+					if eq {
+						return e.execBlock(fr, fb, b, st)
+					}
+					return e.execBlock(fr, tb, b, st)
+				}
+				st2, fr2 := st.clone(), fr.clone()
+				setEq := func(s *pathState) { s.intEq[key] = k }
+				setNeq := func(s *pathState) {
+					if s.intNeq[key] == nil {
+						s.intNeq[key] = map[int64]bool{}
+					}
+					s.intNeq[key][k] = true
+				}
+				if eq {
+					setEq(st)
+					setNeq(st2)
+				} else {
+					setNeq(st)
+					setEq(st2)
+				}
+				st.decisions = append(st.decisions, fmt.Sprintf("%s: %s %s %d", e.cfg.P.Pos(ins.Cond.Pos()), key, map[bool]string{true: "==", false: "!="}[eq], k))
+				st2.decisions = append(st2.decisions, fmt.Sprintf("%s: %s %s %d", e.cfg.P.Pos(ins.Cond.Pos()), key, map[bool]string{true: "!=", false: "=="}[eq], k))
 				outs := e.execBlock(fr, tb, b, st)
 				return append(outs, e.execBlock(fr2, fb, b, st2)...)
 			}
@@ -763,6 +879,19 @@ func (e *pathEngine) doCall(fr *frame, st *pathState, site ssa.CallInstruction, 
 		}
 	}
 	e.Opaque[name]++
+	for k := range args {
+		if args[k].Kind == avSlice && args[k].Alloc != nil {
+			if pt, ok := args[k].Alloc.Type().Underlying().(*types.Pointer); ok {
+				if at, ok := pt.Elem().Underlying().(*types.Array); ok {
+					elems := make([]AV, at.Len())
+					for j := range elems {
+						elems[j] = st.cells[cellKey{args[k].Alloc, j}]
+					}
+					args[k].Tuple = elems
+				}
+			}
+		}
+	}
 	if e.cfg.Classify != nil {
 		tok, terminate := e.cfg.Classify(site, calleeObj, args)
 		if tok != nil {
